@@ -187,6 +187,21 @@ def run(tier: str) -> int:
             rep.violation(f"monotone:{fn}:per-coordinate", "delta increases with the variance", {"lo": lo, "hi": hi, "var": v.tolist(), "delta": d.tolist()})
         if np.any((flatv == 0) & (np.abs(flatd - hi) > tol)):
             rep.violation(f"max-at-zero:{fn}:per-coordinate", "zero variance does not give max_delta", {"lo": lo, "hi": hi})
+    # ---- zero variance on a coordinate whose committee force is exactly zero (every member predicts 0: a coordinate on a
+    # symmetry plane, a frozen coordinate): zero spread => max_delta there, the other coordinates unaffected -------------
+    for fn in ("tanh", "exp"):
+        afb = make("forces", fn, 1, 3)
+        afb.atoms.calc.nvar = 1
+        afb.atoms.calc.publish(afb.atoms)
+        afb.atoms.calc.results["forces_comm"][:, 0, 0] = 0.0
+        rep.count(("zero-force-coordinate", fn))
+        try:
+            afb.update_delta()
+            d = np.asarray(afb.delta, float)
+            if not (d.shape == (3, 3) and np.all(np.isfinite(d)) and close(d[0, 0], 0.03) and close(d[1:], 0.02) and close(d[0, 1:], 0.02)):
+                rep.violation(f"curve:{fn}:forces:zero-force-coordinate", f"a coordinate on which every committee member predicts zero force (zero variance) gets delta {d[0, 0]}, expected max_delta 0.03 (the others: {d[1, 0]}, expected the midpoint 0.02)", {"fn": fn})
+        except Exception as ex:  # noqa: BLE001
+            rep.violation(f"raise:update_delta:zero-force-coordinate:{type(ex).__name__}", f"update_delta raised {ex!r} for a coordinate with zero committee force", {"fn": fn})
     # ---- the fallback: no committee data -> reference variance (midpoint), through step() as well -------
     for scheme in ("forces", "energy"):
         for fn in ("tanh", "exp"):
